@@ -814,6 +814,101 @@ fn emit_vec_opt(b: &[u8]) {
     case(format!("OptU32 {} {}", hn(b), out));
 }
 
+/// `CompactSize::read_t::<T>` of the in-tree crate for every integer width.
+fn emit_read_t(b: &[u8]) {
+    fn one<T: TryFrom<u64> + Into<u128>>(b: &[u8]) -> Option<Result<(u128, u64), ()>> {
+        catch(|| {
+            let mut cur = Cursor::new(b);
+            zcash_encoding::CompactSize::read_t::<_, T>(&mut cur).map(|v| (v.into(), cur.position())).map_err(|_| ())
+        })
+    }
+    let usz = catch(|| {
+        let mut cur = Cursor::new(b);
+        zcash_encoding::CompactSize::read_t::<_, usize>(&mut cur).map(|v| (v as u128, cur.position())).map_err(|_| ())
+    });
+    for (w, o) in [(8u64, one::<u8>(b)), (16, one::<u16>(b)), (32, one::<u32>(b)), (64, one::<u64>(b)), (0, usz)] {
+        let out = match o {
+            None => PANIC.to_string(),
+            Some(Err(())) => err("tt"),
+            Some(Ok((v, c))) => ok(pair(format!("{}", v), format!("{}", c))),
+        };
+        case(format!("ReadT {} {} {}", w, hn(b), out));
+    }
+}
+
+/// A reader delivering `data` and then `fill` zero bytes, counting what it handed out.
+struct Filled<'a> {
+    data: &'a [u8],
+    fill: u64,
+    given: u64,
+}
+impl<'a> std::io::Read for Filled<'a> {
+    fn read(&mut self, buf: &mut [u8]) -> std::io::Result<usize> {
+        let n = if !self.data.is_empty() {
+            let n = buf.len().min(self.data.len());
+            buf[..n].copy_from_slice(&self.data[..n]);
+            self.data = &self.data[n..];
+            n
+        } else {
+            let n = (buf.len() as u64).min(self.fill) as usize;
+            buf[..n].iter_mut().for_each(|x| *x = 0);
+            self.fill -= n as u64;
+            n
+        };
+        self.given += n as u64;
+        Ok(n)
+    }
+}
+
+/// The counted-vector readers of the in-tree crate over `data ++ 0^fill`: number of elements on
+/// success, bytes taken from the reader in both outcomes.
+fn emit_vec_fill(data: &[u8], fill: u64) {
+    use std::io::Read;
+    fn el(r: &mut &mut Filled) -> std::io::Result<u8> {
+        let mut x = [0u8; 1];
+        r.read_exact(&mut x).map(|_| x[0])
+    }
+    for api in 0..3u64 {
+        let mut given = 0u64;
+        let o = catch(|| {
+            let mut rd = Filled { data, fill, given: 0 };
+            let r: std::io::Result<Vec<u8>> = match api {
+                0 => zcash_encoding::Vector::read(&mut rd, el),
+                1 => zcash_encoding::Vector::read_collected(&mut rd, el),
+                _ => zcash_encoding::Vector::read_collected_mut(&mut rd, el),
+            };
+            (r.map(|v| v.len()).map_err(|_| ()), rd.given)
+        });
+        let out = match o {
+            None => PANIC.to_string(),
+            Some((Err(()), g)) => format!("(Err {})", g),
+            Some((Ok(n), g)) => {
+                given = g;
+                ok(pair(format!("{}", n), format!("{}", g)))
+            }
+        };
+        let _ = given;
+        case(format!("VecFill {} {} {} {}", api, hn(data), fill, out));
+    }
+}
+fn emit_arr_fill(count: u64, data: &[u8], fill: u64) {
+    use std::io::Read;
+    let o = catch(|| {
+        let mut rd = Filled { data, fill, given: 0 };
+        let r: std::io::Result<Vec<u8>> = zcash_encoding::Array::read(&mut rd, count as usize, |r| {
+            let mut x = [0u8; 1];
+            r.read_exact(&mut x).map(|_| x[0])
+        });
+        (r.map(|v| v.len()).map_err(|_| ()), rd.given)
+    });
+    let out = match o {
+        None => PANIC.to_string(),
+        Some((Err(()), g)) => format!("(Err {})", g),
+        Some((Ok(n), g)) => ok(pair(format!("{}", n), format!("{}", g))),
+    };
+    case(format!("ArrFill {} {} {} {}", count, hn(data), fill, out));
+}
+
 // ---- generation -------------------------------------------------------------------------------
 fn runner(rng: &mut Rng) -> TestRunner {
     let seed: [u8; 32] = rng.bytes(32).try_into().unwrap();
@@ -1408,6 +1503,51 @@ fn main() {
         emit_cs(&b);
         emit_csw(rng.u64() >> rng.below(64));
     }
+
+    // (7) read_t for every integer width on the boundary lattice, canonical / non-canonical /
+    // truncated; counted-vector readers with prefixes around and above MAX_COMPACT_SIZE over a
+    // short buffer and over a long reader (more zero bytes than the largest admissible vector)
+    let bound_lattice: Vec<u64> = vec![0, 1, 252, 253, 254, 255, 256, 0xffff, 0x10000, 0x01ff_ffff, 0x0200_0000, 0x0200_0001, 0xffff_ffff, 1 << 32, u64::MAX];
+    for &n in &bound_lattice {
+        emit_read_t(&cs_bytes(n));
+        for form in 0..3u8 {
+            let x = noncanon(n, form);
+            emit_read_t(&x);
+            emit_read_t(&x[..x.len() - 1]);
+        }
+    }
+    emit_read_t(&[]);
+    let long: u64 = 0x0200_0001 + 64;
+    for &n in &bound_lattice {
+        let p = cs_bytes(n);
+        // (a) short buffers: nothing, a few bytes, exactly n bytes (small n), one byte less
+        emit_vec_fill(&p, 0);
+        let mut x = p.clone();
+        x.extend(rng.bytes(3));
+        emit_vec_fill(&x, 0);
+        if n <= 300 {
+            for d in [-1i64, 0, 1] {
+                let mut x = p.clone();
+                x.extend(rng.bytes((n as i64 + d).max(0) as usize));
+                emit_vec_fill(&x, 0);
+            }
+        }
+        emit_vec_fill(&p[..p.len() - 1], 0);
+        // (b) a reader that can deliver more than MAX_COMPACT_SIZE + 1 bytes
+        if n <= 0x10000 || n >= 0x0200_0000 {
+            emit_vec_fill(&p, long);
+        }
+        emit_vec_fill(&p, 1000);
+        emit_arr_fill(n.min(long + 5), &[], 1000);
+    }
+    for form in 1..3u8 {
+        emit_vec_fill(&noncanon(0x0200_0001, form), long);
+        emit_vec_fill(&noncanon(5, form), 100);
+    }
+    emit_arr_fill(0x0200_0001, &[], long);
+    emit_arr_fill(0x0200_0001, &[1, 2, 3], 10);
+    emit_vec_fill(&[], 0);
+    emit_vec_fill(&[], 10);
 
     stat(format!(
         "{{\"by_src\":{:?},\"by_outcome\":{:?},\"accepted_by_version\":{:?},\"size_hist_pow2\":{:?},\"cases_with_invalid_blobs\":{},\"arb_tx_over_size_cap_skipped\":{},\"alternative_reader_parses\":{},\"largest_input_bytes\":{}}}",
